@@ -190,6 +190,7 @@ func (g *IG) loopExactlyOnce(nodes map[int]bool) (bool, string) {
 	if len(nodes) == 0 {
 		return false, "no such call"
 	}
+	why := "the call is not inside a loop"
 	for _, ifi := range ifsOf(g.Fn) {
 		hn := g.Idx[ifi]
 		for _, outcome := range []bool{true, false} {
@@ -197,38 +198,42 @@ func (g *IG) loopExactlyOnce(nodes map[int]bool) (bool, string) {
 			if e.to < 0 {
 				continue
 			}
-			ok := true
+			cand := true
 			for n := range nodes {
 				if !g.DominatedByEdges(n, map[edge]bool{e: true}) {
-					ok = false
+					cand = false
 				}
 				if !g.ReachAfter(n, nil, nil)[hn] {
-					ok = false // not a loop around this test
+					cand = false // not a loop around this test
 				}
 			}
-			if !ok {
+			if !cand {
 				continue
 			}
-			// every iteration executes one
+			// candidate loop test (for nested loops the innermost one passes): every iteration executes one
+			fail := ""
 			if !nodes[e.to] {
 				reach := g.Reach([]int{e.to}, nodes, nil)
 				if reach[hn] || anyIn(reach, g.Exits) {
-					return false, "an iteration can complete (or the function can return) without the call"
+					fail = "an iteration can complete (or the function can return) without the call"
 				}
 			}
 			for n := range nodes {
 				reach := g.ReachAfter(n, setOf(hn), nil)
 				for m := range nodes {
 					if reach[m] {
-						return false, "the call can execute twice in one iteration"
+						fail = "the call can execute twice in one iteration"
 					}
 				}
 				if anyIn(reach, g.Exits) {
-					return false, "the loop is left early after the call"
+					fail = "the loop is left early after the call"
 				}
 			}
-			return true, ""
+			if fail == "" {
+				return true, ""
+			}
+			why = fail
 		}
 	}
-	return false, "the call is not inside a loop"
+	return false, why
 }
